@@ -9,7 +9,7 @@
             coefficient by coefficient, q = 4 (DOPRI5), 3 (RK23), 3 (RK4's cubic Hermite with the FSAL-like fifth
             stage f(x+h, ynew)).  By the standard theory (Hairer-Norsett-Wanner II.6) this is uniform local
             order q, i.e. error O(h^(q+1)) over the step -- that last step is textbook, not formalised here.
-   Not proved (DESIGN.md, C07): DOP853 (q = 7, 16 stages with 30-digit coefficients), Radau's collocation
+   Not proved (DESIGN.md, C07): for DOP853 only the order part is proved (end of file); Radau's collocation
    polynomial and BDF's difference polynomial: decided by the one-step slope experiment on the implementation. *)
 Require Import List ZArith QArith Qcanon Reals.
 Require Import IVP.model.Lit IVP.model.Ops IVP.model.RK IVP.model.Trees IVP.model.Order IVP.model.Tableau
@@ -98,3 +98,52 @@ Theorem C07_kernels_have_assumed_shape :
      Rk4.at_knew a = f (x + h)%R (Rk4.at_ynew a)).
 Proof. split; [exact d5_kernel_shape|split; [exact r23_kernel_shape|exact r4_kernel_shape]]. Qed.
 Print Assumptions C07_kernels_have_assumed_shape.
+
+(* ---------------- DOP853, q = 7 (order part) ----------------
+   W_j(theta), j = 1..16, are the weight polynomials of the dense output u(theta) = y + h sum_j W_j(theta) k_j assembled in
+   proofs/CertDop853Dense.v from the regenerated constants in the very shape `finish_dense` and `interpolate` of
+   model/Dop853.v combine them (stage 13 = f(x+h, ynew), stages 14-16 the extra dense stages).  For every rooted tree of
+   order <= 7 and every power theta^m, m = 0..7, the continuous order condition
+        gamma(t) * sum_j [theta^m] W_j * Phi_j(t)  =  1 if m = |t|, 0 otherwise
+   holds up to M / D^|t| with |M| * 1e24 <= gamma(t) D^|t| (30-digit decimal coefficients: scaled integers as in C02), and
+   it fails (by more than 1e-6) for a tree of order 8.  NOT proved for DOP853: that the real-number instance of the
+   model's `interpolate (finish_dense ...)` equals this formula (the analogue of C07_dopri5_is_continuous_rk) -- that
+   reading is tied by the bit-exact replay of every dense value and by the interior slope experiment. *)
+Require Import IVP.proofs.ScaleFacts IVP.proofs.CertDop853Dense IVP.proofs.Dop853DenseFacts.
+Local Open Scope Qc_scope.
+
+Theorem C07_dop853_continuous_order7 :
+  forall t, (size t <= 7)%nat -> forall m, (m < 8)%nat -> exists M : Z,
+    Z2Qc (gamma t) * qdot (wcol (D8W.W lit_q) m) (Phi QcK (D8W.A lit_q) 16 t) - (if Nat.eqb (size t) m then 1 else 0)
+      = (/ Z2Qc (D8W.D lit_q)) ^ size t * Z2Qc M /\
+    (Z.abs M * 10^24 <= gamma t * 1 * (D8W.D lit_q) ^ Z.of_nat (size t))%Z.
+Proof. exact cont7_sound. Qed.
+Print Assumptions C07_dop853_continuous_order7.
+
+Theorem C07_dop853_not_continuous_order8 :
+  size D8Cert.t8 = 8%nat /\ D8Cert.m8 <> 8%nat /\
+  Z2Qc (gamma D8Cert.t8) * qdot (wcol (D8W.W lit_q) D8Cert.m8) (Phi QcK (D8W.A lit_q) 16 D8Cert.t8)
+    = (/ Z2Qc (D8W.D lit_q)) ^ size D8Cert.t8 * Z2Qc D8Cert.M8 /\
+  (10^6 <= Z.abs D8Cert.M8 * 10^12 / (D8W.D lit_q) ^ 8)%Z.
+Proof.
+  split; [exact size_t8|]. split; [discriminate|]. split; [exact resid8_eq|].
+  apply Z.leb_le. exact D8Cert.M8_val.
+Qed.
+Print Assumptions C07_dop853_not_continuous_order8.
+Local Close Scope Qc_scope.
+
+(* ---------------- Radau IIA, q = 3: the dense output IS the collocation polynomial ----------------
+   `radau_cont y z1 z2 z3` repeats the lines of the accepted branch of model/Radau.v that build the four coefficient
+   blocks from the old state y and the converged stage increments Z1, Z2, Z3.  Over the reals, for every dimension,
+   h <> 0 of either sign and every theta, `interpolate` evaluates a cubic in theta that takes the values y, y+Z1, y+Z2, y+Z3
+   at theta = 0, C1, C2, 1 (the node constants as exact rationals of the source literals): the collocation polynomial,
+   whose uniform order for Radau IIA with s = 3 is 3 (collocation theory: textbook, not formalised). *)
+Require Import IVP.proofs.RadauDenseFacts.
+Theorem C07_radau_dense_is_collocation_polynomial :
+  forall n (y z1 z2 z3 : list R) i xold h,
+    length y = n -> length z1 = n -> length z2 = n -> length z3 = n -> (i < n)%nat -> h <> 0%R ->
+    let u theta := nth i (Radau.interpolate Rops (radau_cont y z1 z2 z3) xold h (xold + theta * h)%R n) 0%R in
+    u 0%R = nth i y 0%R /\ u rC1 = (nth i y 0 + nth i z1 0)%R /\
+    u rC2 = (nth i y 0 + nth i z2 0)%R /\ u 1%R = (nth i y 0 + nth i z3 0)%R.
+Proof. exact radau_dense_interpolates. Qed.
+Print Assumptions C07_radau_dense_is_collocation_polynomial.
